@@ -36,20 +36,21 @@ shutil.move("/tmp/seeded_demo.rs.aside", demo)
 p1, f1 = counts(r.stdout)
 ran.append(f"with change: cargo test --workspace --no-fail-fast --offline --lib --tests -> {p1} passed, {f1} failed")
 # (2) demo with the change
-r = sh("cargo test --offline --test seeded_demo 2>&1")
+DEMO = "cargo test --offline " + os.environ.get("SEED_DEMO_FLAGS", "") + " --test seeded_demo 2>&1"     # e.g. --no-default-features for a no_std-only defect
+r = sh(DEMO)
 p2, f2 = counts(r.stdout)
 nocompile = "could not compile" in r.stdout and "error[" in r.stdout
 if nocompile:
     f2 = max(f2, 1)
-ran.append(f"with change: cargo test --offline --test seeded_demo -> " + ("does not compile: " + re.findall(r"error\[E\d+\][^\n]*", r.stdout)[0] if nocompile else f"{p2} passed, {f2} failed"))
+ran.append(f"with change: {DEMO[:-5]} -> " + ("does not compile: " + re.findall(r"error\[E\d+\][^\n]*", r.stdout)[0] if nocompile else f"{p2} passed, {f2} failed"))
 # (3) demo without the change
 # (no `git stash`: the stash is shared between the worktrees of one repository)
 open("/tmp/seedkeep.patch", "w").write(patch)
 sh("git checkout -- src")
-r = sh("cargo test --offline --test seeded_demo 2>&1")
+r = sh(DEMO)
 p3, f3 = counts(r.stdout)
 assert sh("git apply /tmp/seedkeep.patch").returncode == 0
-ran.append(f"without change: cargo test --offline --test seeded_demo -> {p3} passed, {f3} failed")
+ran.append(f"without change: {DEMO[:-5]} -> {p3} passed, {f3} failed")
 ok = (p1 == 87 and f1 == 0 and f2 > 0 and f3 == 0 and p3 > 0)
 print("\n".join(ran))
 print("CONFIRMED" if ok else "NOT CONFIRMED")
